@@ -539,4 +539,16 @@ def matchPF (l r : PF) : Bool :=
 /-- `match(const Factors & lhs, const PartialFactors & rhs)`: `lhs[k] == v` for every pair of `rhs` -/
 def matchF (f : List Nat) (pf : PF) : Bool := pf.all (fun kv => f.getD kv.1 0 == kv.2)
 
+/-- `merge(const PartialFactors & lhs, const PartialFactors & rhs)`: two-cursor merge of the key lists; on a shared key the right
+    operand's pair is emitted and both cursors move; the unread tails are appended -/
+def mergePF : Nat → PF → PF → PF
+  | 0, l, r => l ++ r
+  | _ + 1, [], r => r
+  | _ + 1, l, [] => l
+  | f + 1, (lk, lv) :: l, (rk, rv) :: r =>
+    if lk < rk then (lk, lv) :: mergePF f l ((rk, rv) :: r)
+    else (rk, rv) :: mergePF f (if lk = rk then l else (lk, lv) :: l) r
+
+def mergePFs (l r : PF) : PF := mergePF (l.length + r.length) l r
+
 end AITB.Trie
